@@ -180,6 +180,7 @@ def check_chunk(args):
     stats = {"evals": 0, "nontrivial": 0}
     cwd = os.getcwd()
     for case in cases:
+        core.tick(case, 300)
         d = tempfile.mkdtemp(prefix="c12-", dir=workdir)
         try:
             table = {n: dict(c, modes=as_dict(c["modes"]), passes=as_dict(c["passes"])) for n, c in case["table"].items()}
